@@ -13,9 +13,12 @@ T_CHARS = "abcdefgh"
 class Gram:
     """prods: list of (lhs_name, [symbol names]); terminals: dict name -> char."""
 
-    def __init__(self, prods, terms, metas=None):
+    def __init__(self, prods, terms, metas=None, prod_meta=None, term_meta=None, rule_meta=None):
         self.prods = prods
         self.terms = terms  # name -> recognizer string
+        self.prod_meta = prod_meta or {}   # production index -> [meta strings]
+        self.term_meta = term_meta or {}   # terminal name -> [meta strings]
+        self.rule_meta = rule_meta or {}   # nonterminal name -> [meta strings]
         self.nts = []
         for l, _ in prods:
             if l not in self.nts:
@@ -28,14 +31,19 @@ class Gram:
         out = []
         for nt in self.nts:
             alts = []
-            for (l, rhs) in self.prods:
+            for i, (l, rhs) in enumerate(self.prods):
                 if l == nt:
-                    alts.append(" ".join(rhs) if rhs else "EMPTY")
-            out.append(f"{nt}: {' | '.join(alts)};")
+                    a = " ".join(rhs) if rhs else "EMPTY"
+                    if self.prod_meta.get(i):
+                        a += " {" + ", ".join(self.prod_meta[i]) + "}"
+                    alts.append(a)
+            rm = (" {" + ", ".join(self.rule_meta[nt]) + "}") if self.rule_meta.get(nt) else ""
+            out.append(f"{nt}{rm}: {' | '.join(alts)};")
         if self.terms:
             out.append("terminals")
             for n, c in self.terms.items():
-                out.append(f"{n}: '{c}';")
+                tm = (" {" + ", ".join(self.term_meta[n]) + "}") if self.term_meta.get(n) else ""
+                out.append(f"{n}: '{c}'{tm};")
         return "\n".join(out) + "\n"
 
     # ---------- analysis --------------------------------------------------------------
@@ -294,6 +302,24 @@ def random_grammar(rng, max_nts=4, max_alts=3, max_rhs=4, nterm=3, p_empty=0.15,
         terms = {tnames[0]: tnames[0][1]}
         prods.append((nts[0], [tnames[0]]))
     return Gram(prods, terms)
+
+
+def annotate(rng, g, p_prod=0.4, p_term=0.2, p_rule=0.1):
+    """random disambiguation meta-data on productions, terminals and rules"""
+    choices = ["left", "right", "reduce", "shift", "nops", "nopse", "5", "15", "20"]
+    pm, tm, rm = {}, {}, {}
+    for i, (l, rhs) in enumerate(g.prods):
+        if rng.random() < p_prod:
+            pm[i] = rng.sample(choices, rng.randint(1, 2))
+            if "left" in pm[i] and "right" in pm[i]:
+                pm[i].remove("right")
+    for t in g.terms:
+        if rng.random() < p_term:
+            tm[t] = [rng.choice(["left", "right", "5", "15"])]
+    for nt in g.nts:
+        if rng.random() < p_rule:
+            rm[nt] = [rng.choice(["left", "right", "5", "15", "nops"])]
+    return Gram(g.prods, g.terms, prod_meta=pm, term_meta=tm, rule_meta=rm)
 
 
 def all_strings(alphabet, maxlen):
